@@ -1,5 +1,5 @@
 """C06 - cassette images round-trip every file exactly (and C14's structural clauses on the same runs)."""
-import random, time, multiprocessing as mp
+import os, random, time, multiprocessing as mp
 from harness import tlc, containers as ct
 
 OWN = {"C06": {"roundtrip"}, "C14": {"wellformed", "contents", "blocks", "leaders"}}
@@ -41,6 +41,7 @@ def judge(ctx, name, recs, t0):
 
 def tool_written(ctx, name, filelists):
     t0 = time.time()
+    os.environ["VERIF_SCRATCH"] = tlc.OUT
     with mp.Pool(16) as pool:
         recs = pool.map(ct.tape_case, list(enumerate(filelists)), chunksize=20)
     judge(ctx, name, recs, t0)
